@@ -130,6 +130,9 @@ def ident(x):
 
 
 # ------------------------------------------------------------------ netlist generator
+RETIRED = []      # values that elements of the netlist built last carried earlier in its edit history
+
+
 def build(seed, policy):
     r = random.Random('c13/%s' % seed)
     NM.default = policy
@@ -212,6 +215,33 @@ def build(seed, policy):
         fill(top, mids + mids + leafs, r.randint(2, 4))
         n.top_instance = sdn.Instance(r.choice(['top', 'TOP', 't.i']))
         n.top_instance.reference = top
+        # an edit history on top of the construction: identifiers / names changed, deleted and popped while the element sits in its
+        # parent (the fast lookup is a cache that must follow); the retired values are queried as exact patterns as well
+        del RETIRED[:]
+        if r.random() < 0.6:
+            elems = [l for l in n.libraries] + [d for l in n.libraries for d in l.definitions]
+            for l in n.libraries:
+                for d in l.definitions:
+                    elems += list(d.ports) + list(d.cables) + list(d.children)
+            for _ in range(r.randint(1, 6)):
+                e = r.choice(elems); op = r.choice(['reid', 'reid', 'rename', 'delid', 'popid'])
+                try:
+                    if op == 'reid' and 'EDIF.identifier' in e:
+                        old = e['EDIF.identifier']
+                        e['EDIF.identifier'] = old.swapcase() if r.random() < 0.3 else old + r.choice(['_r', '_R', 'X'])
+                        RETIRED.append(old)
+                    elif op == 'rename' and e.name:
+                        old = e.name
+                        e.name = old + r.choice(['_r', 'R'])
+                        RETIRED.append(old)
+                    elif op == 'delid' and 'EDIF.identifier' in e:
+                        old = e['EDIF.identifier']
+                        del e['EDIF.identifier']
+                        RETIRED.append(old)
+                    elif op == 'popid' and 'EDIF.identifier' in e:
+                        RETIRED.append(e.pop('EDIF.identifier'))
+                except ValueError:
+                    pass
         return n
     finally:
         NM.default = 'DEFAULT'
@@ -297,12 +327,14 @@ def call(fn, root, q, flt=None):
     return list(getattr(sdn, fn)(root, **kw))
 
 
-def pattern_specs(r, values):
-    """[(kind, [patterns], is_re)] derived from the values present."""
+def pattern_specs(r, values, retired=()):
+    """[(kind, [patterns], is_re)] derived from the values present (and up to three values retired earlier in the edit history)."""
     vals = sorted(set(v for v in values if isinstance(v, str) and v))
     if not vals:
         return []
     pick = r.sample(vals, min(3, len(vals)))
+    old = sorted(set(v for v in retired if isinstance(v, str) and v and v not in pick))
+    pick += r.sample(old, min(3, len(old)))
     out = []
     for v in pick:
         br = '[' in v or ']' in v
@@ -481,7 +513,7 @@ def run_netlist(seed, policy, out, cfg, only=None):
                         continue
                     for key in (KEYS if 'key' in HAS[fn] else ['.NAME']):
                         below = root if (fn in HIER and isinstance(root, HRef) and irlib.kind(root.item) == 'Instance') else None
-                        specs = pattern_specs(r, [value_of(e, key, below if r.random() < 0.5 else None) for e in U])
+                        specs = pattern_specs(r, [value_of(e, key, below if r.random() < 0.5 else None) for e in U], retired=(RETIRED if fn in FLAT else ()))
                         for pk, pats, is_re in specs:
                             for is_case in (True, False):
                                 verdicts = []
